@@ -896,6 +896,9 @@ def _get_attribute(obj: Any, attr: str) -> Any:
     if is_private_attribute(attr):
         raise AttributeError("attempt to access private attribute '%s'" % attr)
     else:
+        if inspect.isdatadescriptor(getattr(type(obj), attr, None)):
+            # properties are never callable; looking them up on the instance would run the getter
+            raise AttributeError("attempt to access unexposed attribute '%s'" % attr)
         obj = getattr(obj, attr)
     if getattr(obj, "_pyroExposed", False):
         return obj
@@ -985,6 +988,8 @@ def _get_exposed_property_value(obj: Any, propname: str, only_exposed: bool = Tr
     If the requested property is not a @property or not exposed,
     an AttributeError is raised instead.
     """
+    if is_private_attribute(propname):
+        raise AttributeError("attempt to access private attribute '%s'" % propname)
     v = getattr(obj.__class__, propname)
     if inspect.isdatadescriptor(v):
         if v.fget and getattr(v.fget, "_pyroExposed", not only_exposed):
@@ -998,6 +1003,8 @@ def _set_exposed_property_value(obj: Any, propname: str, value: Any, only_expose
     If the requested property is not a @property or not exposed,
     an AttributeError is raised instead.
     """
+    if is_private_attribute(propname):
+        raise AttributeError("attempt to access private attribute '%s'" % propname)
     v = getattr(obj.__class__, propname)
     if inspect.isdatadescriptor(v):
         pfunc = v.fget or v.fset or v.fdel
